@@ -166,6 +166,7 @@ type Ev struct {
 
 // Del is one delivery object of a scripted target together with its typestate.
 type Del struct {
+	Meta     *module.MsgMetadata // identifies the pipeline delivery (transaction) this one belongs to
 	Tgt      int
 	From     string
 	Partial  bool
@@ -222,7 +223,7 @@ func (t *Target) Start(ctx context.Context, msgMeta *module.MsgMetadata, mailFro
 	if f.S&(1<<t.Idx) != 0 {
 		return nil, Err(f.Cls, StTgtStart+t.Idx)
 	}
-	d := &Del{Tgt: t.Idx, From: mailFrom, Partial: t.Partial, Status: map[string]bool{}}
+	d := &Del{Meta: msgMeta, Tgt: t.Idx, From: mailFrom, Partial: t.Partial, Status: map[string]bool{}}
 	t.L.Dels = append(t.L.Dels, d)
 	dl := &delivery{t: t, d: d, f: f}
 	if t.Partial {
